@@ -414,6 +414,19 @@ func WaitSteps(k int) {
 	}
 }
 
+// Poll waits (in units of two scheduler steps) until cond holds, at most maxPolls times, and
+// reports whether it did. A helper task that polls for ever would keep a world alive whose other
+// tasks are all blocked for good: giving up lets the deadlock detector see them.
+func Poll(cond func() bool, maxPolls int) bool {
+	for i := 0; !cond(); i++ {
+		if i >= maxPolls {
+			return false
+		}
+		WaitSteps(2)
+	}
+	return true
+}
+
 func (w *World) mix(h *uint64, s string) {
 	x := *h
 	for i := 0; i < len(s); i++ {
